@@ -140,6 +140,7 @@ func Init(n int, prefix []int) {
 	}
 	s.nlocks = 1
 	s.gen++
+	emptyPools()
 	s.active = true
 }
 
@@ -254,10 +255,70 @@ type (
 	WaitGroup = sync.WaitGroup
 	Once      = sync.Once
 	Map       = sync.Map
-	Pool      = sync.Pool
 	Cond      = sync.Cond
 	Locker    = sync.Locker
 )
+
+// Pool stands in for sync.Pool with one of the behaviours sync.Pool may show, chosen so that nothing
+// is left to chance: Get hands out the item that was Put last (the real pool may equally hand out any
+// other, or none - it keeps items per processor and drops them at will, so what a caller meets would
+// depend on where the runtime happened to run it). Reuse is therefore as frequent as it can be, which
+// is the case in which an item that was put back in a used state shows. The pools are emptied when
+// an execution under the scheduler begins, so that an execution does not depend on the one before
+// it. Get and Put are not scheduling points.
+type Pool struct {
+	New func() any
+
+	mu    sync.Mutex
+	items []any
+	known bool
+}
+
+var (
+	poolsMu sync.Mutex
+	pools   []*Pool
+)
+
+func (p *Pool) Get() any {
+	p.mu.Lock()
+	if n := len(p.items); n > 0 {
+		x := p.items[n-1]
+		p.items = p.items[:n-1]
+		p.mu.Unlock()
+		return x
+	}
+	p.mu.Unlock()
+	if p.New != nil {
+		return p.New()
+	}
+	return nil
+}
+
+func (p *Pool) Put(x any) {
+	if x == nil {
+		return
+	}
+	p.mu.Lock()
+	p.items = append(p.items, x)
+	first := !p.known
+	p.known = true
+	p.mu.Unlock()
+	if first {
+		poolsMu.Lock()
+		pools = append(pools, p)
+		poolsMu.Unlock()
+	}
+}
+
+func emptyPools() {
+	poolsMu.Lock()
+	for _, p := range pools {
+		p.mu.Lock()
+		p.items = nil
+		p.mu.Unlock()
+	}
+	poolsMu.Unlock()
+}
 
 // NewCond mirrors sync.NewCond.
 func NewCond(l Locker) *Cond { return sync.NewCond(l) }
